@@ -65,8 +65,8 @@ TIERS = {
     "quick": dict(mc_depth=6, cov_depth=4, sim_inv=150, sim_inv_depth=30, dump_depth=4,
                   max_walk=120, step_budget=8000, sim_walks=60, sim_depth=18, hist=70, hist_len=24,
                   tlc_timeout=240),
-    "thorough": dict(mc_depth=9, cov_depth=5, sim_inv=20000, sim_inv_depth=40, dump_depth=5,
-                     max_walk=200, step_budget=120000, sim_walks=1500, sim_depth=30, hist=1500,
+    "thorough": dict(mc_depth=9, cov_depth=5, sim_inv=8000, sim_inv_depth=40, dump_depth=5,
+                     max_walk=200, step_budget=60000, sim_walks=600, sim_depth=30, hist=700,
                      hist_len=40, tlc_timeout=1500),
 }
 
